@@ -6,10 +6,16 @@ COMMON_TRUST = [
     "std read_exact contract (n bytes or UnexpectedEof); Interrupted never occurs on in-memory readers",
 ]
 
+CRYPTO_TRUST = [
+    "aes, camellia are permutations of 16-byte blocks (BlockPerm.Lawful); cbc/ctr/cipher crates implement CBC/CTR/PKCS#7 as re-modelled (cross-checked with a toy cipher through the repository's generic code)",
+    "argon2, pbkdf2, password-hash: key derivation and PHC parsing enter as oracle answers computed with the same crates",
+    "flate2, zstd, liblzma obey the codec round-trip law (Compressor.Lawful) and tolerate short reads",
+]
+
 PROPS = {
     "C03": {
         "lean": ["PnaVerif.Props.Consts", "PnaVerif.Props.C03"],
-        "families": ["chunk", "parse"],
+        "families": ["chunk", "parse", "cipher-sm"],
         "trusted": COMMON_TRUST,
         "text": "slice reader = stream reader proved for all byte strings; correspondence on valid/mutated/hostile inputs",
     },
@@ -55,5 +61,23 @@ PROPS = {
         "families": ["codec", "entry"],
         "trusted": COMMON_TRUST,
         "text": "library codecs: dec(enc v) = v under explicit domain predicates (proved); codecs compared through hooks",
+    },
+    "C01": {
+        "lean": ["PnaVerif.Props.Consts", "PnaVerif.Props.C01"],
+        "families": ["cipher-sm", "roundtrip"],
+        "trusted": COMMON_TRUST + CRYPTO_TRUST,
+        "text": "writer partition independence, reader schedule independence and pipeline round trip proved for every lawful cipher/codec; state machines tied by cipher-sm, end to end by roundtrip",
+    },
+    "C16": {
+        "lean": ["PnaVerif.Props.Consts", "PnaVerif.Props.C16"],
+        "families": ["roundtrip"],
+        "trusted": COMMON_TRUST + CRYPTO_TRUST,
+        "text": "decision logic of opening an encrypted entry proved; right/wrong/no password sampled through the public API",
+    },
+    "C08": {
+        "lean": ["PnaVerif.Props.Consts", "PnaVerif.Props.C08"],
+        "families": ["roundtrip"],
+        "trusted": COMMON_TRUST + CRYPTO_TRUST + ["rand/rand_chacha: distinct draws yield distinct values (sampled)"],
+        "text": "data-flow structure proved (plaintext only through E / XOR keystream, PHSF without hash, one salt+IV draw per context); leakage and freshness sampled",
     },
 }
